@@ -1,11 +1,14 @@
 #!/bin/bash
-# runs every seeded change against the quick check of its own property; writes selftest/kill_matrix.json
+# runs every seeded change against the quick check that is recorded as catching it; writes selftest/kill_matrix.json
 cd /verif
 out=selftest/kill_matrix${VERIF_SEED:+_seed$VERIF_SEED}.json
 echo "{" > $out.tmp
 first=1
 for d in seeded/*/; do
-  n=$(basename $d); id=${n%%-*}; [ "$n" = "C17-prepare-relabels-under-fixed-mask" ] && id=C18
+  n=$(basename $d)
+  # the check named first in the seeded change's meta.json (normally its own property's; a few changes are caught by
+  # the check of a neighbouring property, see DESIGN.md section 11)
+  id=$(/venv/bin/python -c "import json,sys; print(json.load(open(sys.argv[1]))['detected_by_quick_checks'][0])" $d/meta.json 2>/dev/null || echo ${n%%-*})
   res=$(tools/try_mutant.sh $d/patch.diff $id 2>&1 | grep "^== " | head -1)
   rc=$(echo "$res" | sed -E 's/.*exit=([0-9]+).*/\1/')
   [ $first = 1 ] || echo "," >> $out.tmp; first=0
